@@ -196,6 +196,20 @@ func VerifEntities() {
 		b = append(append([]byte("&#1844674407370955168"), b...), ';')
 	case 12:
 		b = append(append([]byte("&#922337203685477580"), b...), ';')
+	case 13: // every two-digit hexadecimal reference (ASCII / C1 / Latin-1 boundaries), then the tail
+		h := vBytes("h", 2)
+		for i := range h {
+			c := h[i]
+			vAssume(c >= '0' && c <= '9' || c >= 'a' && c <= 'f' || c >= 'A' && c <= 'F')
+		}
+		b = append(append(append([]byte("&#x"), h...), ';'), b...)
+	case 14: // every three-digit decimal reference
+		d := vBytes("d", 3)
+		for i := range d {
+			c := d[i]
+			vAssume(c >= '0' && c <= '9')
+		}
+		b = append(append(append([]byte("&#"), d...), ';'), b...)
 	}
 	n = len(b)
 	orig := append([]byte(nil), b...)
@@ -225,7 +239,7 @@ func VerifWSAndEntities() {
 	b := vBytes("b", n)
 	for i := range b {
 		c := b[i]
-		vAssume(c == '&' || c == '#' || c == ';' || c == '3' || c == '2' || c == 'l' || c == 't' || c == ' ' || c == '\n' || c == 'a')
+		vAssume(c == '&' || c == '#' || c == ';' || c == '3' || c == '2' || c == 'l' || c == 't' || c == ' ' || c == '\n' || c == 'a' || c == '\r' || c == '\t' || c == '\f')
 	}
 	if vParam("SK", 0) == 10 {
 		b = append([]byte("a&#200"), b...)
